@@ -11,6 +11,7 @@
 
 Positions are shipped in units of 1/Q as reduced homogeneous integer 4-tuples <<n1, n2, n3, d>>.
 """
+import json
 import math
 from fractions import Fraction
 
@@ -367,7 +368,7 @@ def _empty_trace(recipe):
     return {"kind": recipe["kind"], "Q": recipe["Q"], "facets": recipe.get("facets", []), "exc": "", "offgrid": False, "resid": 0,
             "verts": [], "lists": [], "tris": [], "trifacet": [],
             "gmf": dict({"records": [], "rots": [], "recip": [[1, 0, 0], [0, 1, 0], [0, 0, 1]]}, **recipe.get("gmf", {})),
-            "mesh": {"exc": "skipped", "verts": [], "faces": [], "vol6s": big(0)},
+            "mesh": {"exc": "skipped", "tie": True, "verts": [], "faces": [], "vol6s": big(0)},
             "scale": {"sn": sn, "sd": sd, "exc": "skipped", "verts": [], "offgrid": False},
             "meta": {"recipe": recipe, "source": "seeded-" + recipe["kind"], "impl_call": "WulffConstruction.from_gmf_and_crystal",
                      "nontrivial": True}}
@@ -381,7 +382,7 @@ def drive_facets(recipe, prebuilt=None):
     sn, sd = recipe["scale"]
     wmax = max([1] + [abs(f[3]) for f in facets])
     nf = len(facets)
-    empty_mesh = {"exc": "skipped", "verts": [], "faces": [], "vol6s": big(0)}
+    empty_mesh = {"exc": "skipped", "tie": True, "verts": [], "faces": [], "vol6s": big(0)}
     t = {"kind": recipe["kind"], "Q": q, "facets": facets, "exc": "", "offgrid": False, "resid": 0,
          "gmf": dict({"records": [], "rots": [], "recip": [[1, 0, 0], [0, 1, 0], [0, 0, 1]]}, **recipe.get("gmf", {})),
          "verts": [], "lists": [[] for _ in facets], "tris": [], "trifacet": [],
@@ -428,7 +429,21 @@ def drive_facets(recipe, prebuilt=None):
         if not math.isfinite(vol) or abs(vol) > 1e6:
             proj.offgrid = True
             vol = 0.0
-        t["mesh"] = {"exc": "", "verts": [proj.point(v * q) for v in np.asarray(m.vertices, dtype=float)],
+        mvf = np.asarray(m.vertices, dtype=float)
+        mvp = [proj.point(v * q) for v in mvf]
+        # copies of one corner that survive in the mesh: explained only when the two floats fall on different sides of a rounding
+        # tie of the mesh library's 1e-8 merge grid (coordinates that are exact binary fractions such as 727/512 sit on ties)
+        tie = True
+        seen = {}
+        for k, pp in enumerate(mvp):
+            key = json.dumps(pp)
+            if key in seen:
+                i0 = seen[key]
+                if np.array_equal(np.round(mvf[i0] * 1e8), np.round(mvf[k] * 1e8)):
+                    tie = False
+            else:
+                seen[key] = k
+        t["mesh"] = {"exc": "", "tie": bool(tie), "verts": mvp,
                      "faces": [_ints(f) for f in np.asarray(m.faces)],
                      "vol6s": big(round(Fraction(vol) * 6 * q ** 3 * VOLS))}
     except Exception as e:
